@@ -5,6 +5,8 @@ package server
 // equal what was really exchanged on the wire.
 
 import (
+	"bytes"
+
 	"github.com/DrmagicE/gmqtt/pkg/codes"
 	"github.com/DrmagicE/gmqtt/pkg/packets"
 	"github.com/DrmagicE/gmqtt/zzrt"
@@ -108,6 +110,35 @@ func ZZ_C20_Connection() {
 		}
 		check()
 		zzrt.Assert(!done, "connection-stays-up")
+	}
+	// optionally the client breaks a rule at the end (a topic alias above the advertised
+	// maximum): the broker answers with DISCONNECT 0x94, which is a sent packet like any other
+	if zzrt.Choice(2) == 1 {
+		al := uint16(65535)
+		rcvPub++
+		msgIn[0]++
+		feed(&packets.Publish{Version: packets.Version5, FixHeader: &packets.FixHeader{PacketType: packets.PUBLISH}, Qos: 0,
+			TopicName: []byte("t"), Payload: []byte{1}, Properties: &packets.Properties{TopicAlias: &al}})
+		zzrt.Yield()
+		see()
+		sawDisconnect := false
+		rd := packets.NewReader(bytes.NewReader(conn.written))
+		rd.SetVersion(packets.Version5)
+		for {
+			p, err := rd.ReadPacket()
+			if err != nil {
+				break
+			}
+			if d, ok := p.(*packets.Disconnect); ok {
+				sawDisconnect = true
+				zzrt.Assert(d.Code == codes.TopicAliasInvalid, "alias-above-the-maximum-answered-with-0x94")
+			}
+		}
+		zzrt.Assert(sawDisconnect, "alias-above-the-maximum-answered-with-0x94")
+		g := srv.statsManager.GetGlobalStats().PacketStats
+		zzrt.Assert(g.SentTotal.Disconnect == 1 && g.SentTotal.Total == sentPackets && g.BytesSent.Total == uint64(len(conn.written)), "a-disconnect-sent-by-the-broker-is-counted")
+		zzrt.Assert(g.ReceivedTotal.Total == rcvPackets && g.BytesReceived.Total == rcvBytes, "received-packets-and-bytes-equal-the-wire")
+		zzrt.Cover("broker-disconnect")
 	}
 	close(conn.in)
 	zzrt.Yield()
